@@ -35,12 +35,18 @@ class Construction:
 
   def _initialize_tags(self, strings):
     first_tag = len(strings)
+    tagnames = []
     for i in range(len(strings)-1, 0, -1):
       try:
-        self._initialize_tag(*(gfapy.Field._parse_gfa_tag(strings[i])))
+        n, t, s = gfapy.Field._parse_gfa_tag(strings[i])
+        self._initialize_tag(n, t, s)
       except:
         break
+      tagnames.append(n)
       first_tag = i
+    # the tags were scanned from the last one: restore the order of the line
+    for n in reversed(tagnames):
+      self._data[n] = self._data.pop(n)
     self._delayed_initialize_positional_fields(strings, first_tag)
 
   def _delayed_initialize_positional_fields(self, strings, n_positional_fields):
